@@ -12,6 +12,11 @@ from concurrent.futures import ThreadPoolExecutor
 VERIF = os.path.dirname(os.path.dirname(os.path.abspath(__file__)))
 HARNESS = os.path.join(VERIF, "harness")
 REPO = os.environ.get("VERIF_REPO", "/repo")
+# VERIF_ALT=<tag>: run against another checkout (VERIF_REPO) without touching bin/, out/, evidence/ of the real runs
+ALT = os.environ.get("VERIF_ALT", "")
+BIN_DIR = os.path.join(VERIF, "bin" + ("-" + ALT if ALT else ""))
+OUT_DIR = os.path.join(VERIF, "out" + ("-" + ALT if ALT else ""))
+EVID_DIR = os.path.join(VERIF, "evidence" + ("-" + ALT if ALT else ""))
 GOENV = dict(GOFLAGS="-mod=mod", GOPROXY="off", GOSUMDB="off", GOTOOLCHAIN="local")
 
 PROPS = {}
@@ -28,16 +33,27 @@ def env_for_go():
 
 def build(binname, log):
     """(ok, inconclusive_reason)"""
-    os.makedirs(os.path.join(VERIF, "bin"), exist_ok=True)
+    os.makedirs(BIN_DIR, exist_ok=True)
     # go.sum comes from the repository (harness has no extra deps beyond porcupine)
     sums = open(os.path.join(REPO, "go.sum")).read()
     extra = os.path.join(HARNESS, "go.sum.extra")
     if os.path.exists(extra):
         sums += open(extra).read()
-    with open(os.path.join(HARNESS, "go.sum"), "w") as f:
-        f.write(sums)
-    out = os.path.join(VERIF, "bin", binname)
-    cmd = ["go", "build", "-race", "-tags", "verif", "-o", out, "./cmd/" + binname]
+    out = os.path.join(BIN_DIR, binname)
+    cmd = ["go", "build", "-race", "-tags", "verif", "-o", out]
+    if REPO != "/repo":
+        # another checkout: same module file with the replace directive pointing there
+        mf = os.path.join(BIN_DIR, "go.mod")
+        gm = open(os.path.join(HARNESS, "go.mod")).read().replace("=> /repo", "=> " + REPO)
+        with open(mf, "w") as f:
+            f.write(gm)
+        with open(os.path.join(BIN_DIR, "go.sum"), "w") as f:
+            f.write(sums)
+        cmd += ["-modfile=" + mf]
+    else:
+        with open(os.path.join(HARNESS, "go.sum"), "w") as f:
+            f.write(sums)
+    cmd += ["./cmd/" + binname]
     t0 = time.time()
     p = subprocess.run(cmd, cwd=HARNESS, env=env_for_go(), stdout=subprocess.PIPE, stderr=subprocess.STDOUT, text=True)
     with open(log, "w") as f:
@@ -117,7 +133,7 @@ def race_key(rep):
     """dedupe key: the two access stacks' repo frames, line numbers stripped"""
     parts = []
     for s in access_stacks(rep):
-        fr = [strip_fn(f) for f, loc in s["frames"] if "/repo/" in loc or "AliceO2Group/Control" in f]
+        fr = [strip_fn(f) for f, loc in s["frames"] if (REPO + "/") in loc or "AliceO2Group/Control" in f]
         parts.append(">".join(fr[:6]))
     return " || ".join(sorted(parts))
 
@@ -132,7 +148,7 @@ def attribute_race(rep, patterns):
     for s in acc:
         top = None
         for f, loc in s["frames"]:
-            if "/repo/" in loc:
+            if (REPO + "/") in loc:
                 top = strip_fn(f)
                 break
         if top is None:
@@ -185,7 +201,7 @@ def main():
     for part in parts:
         rcs.append(run_single(part, pid, a))
         try:
-            evs.append(json.load(open(os.path.join(VERIF, "evidence", part + ".json"))))
+            evs.append(json.load(open(os.path.join(EVID_DIR, part + ".json"))))
         except Exception:
             pass
     merged = {"property_id": pid, "tier": "thorough" if a.tier == "thorough" else "quick",
@@ -201,15 +217,15 @@ def main():
         merged["assumptions"] += ev.get("assumptions", [])
         merged["violations"] += ev.get("violations", 0)
         try:
-            os.remove(os.path.join(VERIF, "evidence", part + ".json"))
+            os.remove(os.path.join(EVID_DIR, part + ".json"))
         except OSError:
             pass
     if not merged["coverage"]["rule"]:
         merged["coverage"]["rule"] = " || ".join("%s: %s" % (p, merged["coverage"]["parts"][p].get("rule", "")) for p in merged["coverage"]["parts"])
-    tmp = os.path.join(VERIF, "evidence", pid + ".json.tmp")
+    tmp = os.path.join(EVID_DIR, pid + ".json.tmp")
     with open(tmp, "w") as f:
         json.dump(merged, f, indent=1, default=str)
-    os.replace(tmp, os.path.join(VERIF, "evidence", pid + ".json"))
+    os.replace(tmp, os.path.join(EVID_DIR, pid + ".json"))
     if 1 in rcs:
         return 1
     if 2 in rcs:
@@ -229,7 +245,7 @@ def run_single(pid, report_as, a):
     timeout_s = int(tcfg.get("timeout_s", 600))
     binname = cfg["bin"]
 
-    root = os.path.join(VERIF, "out", pid)
+    root = os.path.join(OUT_DIR, pid)
     os.makedirs(root, exist_ok=True)
     # keep disk bounded: drop older runs of this property (replay files of the latest run stay)
     for d in sorted(glob.glob(os.path.join(root, "run-*"))):
@@ -265,13 +281,13 @@ def run_single(pid, report_as, a):
         env = dict(os.environ)
         env.update(GOENV)
         env["GORACE"] = "halt_on_error=0 log_path=%s/race history_size=3" % bdir
-        env["VERIF_BIN"] = os.path.join(VERIF, "bin")
+        env["VERIF_BIN"] = BIN_DIR
         env["VERIF_DIR"] = VERIF
         env["TMPDIR"] = os.path.join(bdir, "tmp")
         os.makedirs(env["TMPDIR"], exist_ok=True)
         for k, v in tcfg.get("env", {}).items():
             env[k] = str(v)
-        cmd = ["timeout", "-s", "QUIT", "-k", "20", str(timeout_s), os.path.join(VERIF, "bin", binname), pid,
+        cmd = ["timeout", "-s", "QUIT", "-k", "20", str(timeout_s), os.path.join(BIN_DIR, binname), pid,
                "--seed", str(seed), "--tier", tier, "--batch", str(b), "--nbatch", str(nbatch), "--out", bdir]
         cmd += [str(x) for x in tcfg.get("args", [])]
         with open(os.path.join(bdir, "stdout"), "w") as so, open(os.path.join(bdir, "stderr"), "w") as se:
@@ -423,7 +439,7 @@ def run_single(pid, report_as, a):
 
 def write_evidence(pid, cfg, tier, seed, t0, evals, fps, samples, inconcl, counters, known_seen, unattr,
                    interleavings=0, nviol=0, race_attr=0, rule=""):
-    os.makedirs(os.path.join(VERIF, "evidence"), exist_ok=True)
+    os.makedirs(os.path.join(EVID_DIR), exist_ok=True)
     ev = {
         "property_id": pid,
         "tier": tier,
@@ -447,10 +463,10 @@ def write_evidence(pid, cfg, tier, seed, t0, evals, fps, samples, inconcl, count
     }
     if cfg.get("exhaustive"):
         ev["coverage"]["exhaustive"] = True
-    tmp = os.path.join(VERIF, "evidence", pid + ".json.tmp")
+    tmp = os.path.join(EVID_DIR, pid + ".json.tmp")
     with open(tmp, "w") as f:
         json.dump(ev, f, indent=1, default=str)
-    os.replace(tmp, os.path.join(VERIF, "evidence", pid + ".json"))
+    os.replace(tmp, os.path.join(EVID_DIR, pid + ".json"))
 
 
 if __name__ == "__main__":
